@@ -1,1 +1,596 @@
-//! (module to be written)
+//! TeX's number scanners on token lists, transliterated from tex.web:
+//! scan_keyword §407, scan_int §440-446, scan_dimen §448-460, scan_glue §461-462, print_spec §177-178.
+//!
+//! Arithmetic is `i64`; where Pascal would leave the 32-bit range (negating -2^31, which is outside
+//! TeX's integer range |n| <= 2^31-1) the scanner sets `undefined` and the caller must not judge the
+//! value. `errors` lists the errors TeX raises, in order.
+
+use crate::arith::{self, INFINITY, MAX_DIMEN, UNITY};
+use std::collections::VecDeque;
+
+#[derive(Clone, Copy, Debug, PartialEq, Eq, Default)]
+pub struct Glue {
+    pub width: i64,
+    pub stretch: i64,
+    /// 0 normal, 1 fil, 2 fill, 3 filll
+    pub stretch_order: u8,
+    pub shrink: i64,
+    pub shrink_order: u8,
+}
+
+#[derive(Clone, Debug, PartialEq, Eq)]
+pub enum Tok {
+    /// character token of category 11
+    Letter(char),
+    /// character token of category 12
+    Other(char),
+    /// character token of category 10
+    Space,
+    /// character token of any other category (braces, #, $ ...): never part of a number
+    Special(char),
+    /// control sequence whose meaning is an internal integer (register, \chardef'd name ...)
+    Int(i64),
+    /// ... an internal dimension
+    Dimen(i64),
+    /// ... an internal glue
+    Glue(Glue),
+    /// unexpandable control sequence that is not an internal quantity (\relax, an undefined name);
+    /// `Some(c)` when its name is the single character c
+    Cs(Option<char>),
+    /// macro without parameters: name (as for `Cs`) and replacement text
+    Macro(Option<char>, Vec<Tok>),
+    /// the token list is exhausted (the harness always ends a list with `Cs`, so this never decides)
+    End,
+}
+
+#[derive(Clone, Copy, Debug, PartialEq, Eq)]
+pub enum ScanError {
+    /// §446 "Missing number, treated as zero"
+    MissingNumber,
+    /// §445 "Number too big"
+    NumberTooBig,
+    /// §442 "Improper alphabetic constant"
+    ImproperAlpha,
+    /// §459 "Illegal unit of measure (pt inserted)"
+    IllegalUnit,
+    /// §454 "Illegal unit of measure (replaced by filll)"
+    IllegalFil,
+    /// §460 "Dimension too large"
+    DimensionTooLarge,
+}
+
+pub struct Scanner {
+    pub input: VecDeque<Tok>,
+    pub errors: Vec<ScanError>,
+    /// a Pascal range violation happened (an operand was -2^31): the value is not defined by tex.web
+    pub undefined: bool,
+    /// \fontdimen6 and \fontdimen5 of the current font (sp)
+    pub em: i64,
+    pub ex: i64,
+    /// largest character code a single-character control sequence / character token may have in an
+    /// alphabetic constant (255 in TeX82; 0x10FFFF for a Unicode engine)
+    pub max_char: i64,
+    /// §407 compares character codes only (`cur_cs=0`), whatever the category code
+    pub keyword_any_catcode: bool,
+    /// §407 skips space tokens in front of a keyword (and does not restore them)
+    pub keyword_skips_spaces: bool,
+}
+
+impl Scanner {
+    pub fn new(toks: Vec<Tok>) -> Scanner {
+        Scanner { input: toks.into(), errors: vec![], undefined: false, em: 0, ex: 0, max_char: 0x10FFFF, keyword_any_catcode: true, keyword_skips_spaces: true }
+    }
+    fn get_token(&mut self) -> Tok {
+        self.input.pop_front().unwrap_or(Tok::End)
+    }
+    /// §380 get_x_token (parameterless macros only)
+    fn get_x_token(&mut self) -> Tok {
+        loop {
+            match self.get_token() {
+                Tok::Macro(_, body) => {
+                    for t in body.into_iter().rev() {
+                        self.input.push_front(t);
+                    }
+                }
+                t => return t,
+            }
+        }
+    }
+    fn back_input(&mut self, t: Tok) {
+        if t != Tok::End {
+            self.input.push_front(t);
+        }
+    }
+    fn negate(&mut self, v: i64) -> i64 {
+        if v < -INFINITY || v > INFINITY {
+            self.undefined = true;
+        }
+        -v
+    }
+    /// §406 Get the next non-blank non-call token
+    fn next_nonblank(&mut self) -> Tok {
+        loop {
+            let t = self.get_x_token();
+            if t != Tok::Space {
+                return t;
+            }
+        }
+    }
+    /// §441 Get the next non-blank non-sign token; set `negative` appropriately
+    fn next_nonblank_nonsign(&mut self, negative: &mut bool) -> Tok {
+        loop {
+            let t = self.next_nonblank();
+            if t == Tok::Other('-') {
+                *negative = !*negative;
+            } else if t != Tok::Other('+') {
+                return t;
+            }
+        }
+    }
+    /// §443 Scan an optional space
+    fn optional_space(&mut self) -> Tok {
+        let t = self.get_x_token();
+        if t != Tok::Space {
+            self.back_input(t.clone());
+        }
+        t
+    }
+
+    /// §407 scan_keyword
+    pub fn scan_keyword(&mut self, s: &str) -> bool {
+        let mut matched: Vec<Tok> = vec![];
+        for k in s.chars() {
+            loop {
+                let t = self.get_x_token();
+                let c = match &t {
+                    Tok::Letter(c) => Some(*c),
+                    Tok::Other(c) | Tok::Special(c) if self.keyword_any_catcode => Some(*c),
+                    _ => None,
+                };
+                if c == Some(k) || c == Some(k.to_ascii_uppercase()) {
+                    matched.push(t);
+                    break;
+                } else if t != Tok::Space || !matched.is_empty() || !self.keyword_skips_spaces {
+                    self.back_input(t);
+                    for m in matched.into_iter().rev() {
+                        self.back_input(m);
+                    }
+                    return false;
+                }
+                // a space before the first character of the keyword: skipped
+            }
+        }
+        true
+    }
+
+    /// §440 scan_int. Returns (value, radix, the token that ended the constant).
+    fn scan_int_ext(&mut self) -> (i64, u32, Tok) {
+        let mut radix = 0u32;
+        let mut ok_so_far = true;
+        let mut negative = false;
+        let mut cur_tok = self.next_nonblank_nonsign(&mut negative);
+        let mut cur_val: i64;
+        match cur_tok.clone() {
+            Tok::Other('`') => {
+                // §442: get_token, macro expansion suppressed
+                let t = self.get_token();
+                let code: Option<i64> = match &t {
+                    Tok::Letter(c) | Tok::Other(c) | Tok::Special(c) => Some(*c as i64),
+                    Tok::Space => Some(32),
+                    Tok::Cs(Some(c)) | Tok::Macro(Some(c), _) => Some(*c as i64),
+                    _ => None,
+                };
+                match code {
+                    Some(c) if c <= self.max_char => {
+                        cur_val = c;
+                        cur_tok = self.optional_space();
+                    }
+                    _ => {
+                        self.errors.push(ScanError::ImproperAlpha);
+                        cur_val = '0' as i64;
+                        self.back_input(t); // back_error
+                    }
+                }
+            }
+            Tok::Int(v) | Tok::Dimen(v) => cur_val = v, // scan_something_internal(int_val), §429 coercion
+            Tok::Glue(g) => cur_val = g.width,
+            _ => {
+                // §444 Scan a numeric constant
+                radix = 10;
+                let mut m: i64 = 214748364;
+                if cur_tok == Tok::Other('\'') {
+                    radix = 8;
+                    m = 0o2000000000;
+                    cur_tok = self.get_x_token();
+                } else if cur_tok == Tok::Other('"') {
+                    radix = 16;
+                    m = 0o1000000000;
+                    cur_tok = self.get_x_token();
+                }
+                let mut vacuous = true;
+                cur_val = 0;
+                // §445
+                loop {
+                    let d: i64 = match &cur_tok {
+                        Tok::Other(c) if c.is_ascii_digit() && (*c as u32 - '0' as u32) < radix => *c as i64 - '0' as i64,
+                        Tok::Other(c) | Tok::Letter(c) if radix == 16 && ('A'..='F').contains(c) => *c as i64 - 'A' as i64 + 10,
+                        _ => break,
+                    };
+                    vacuous = false;
+                    if cur_val >= m && (cur_val > m || d > 7 || radix != 10) {
+                        if ok_so_far {
+                            self.errors.push(ScanError::NumberTooBig);
+                            cur_val = INFINITY;
+                            ok_so_far = false;
+                        }
+                    } else {
+                        cur_val = cur_val * radix as i64 + d;
+                    }
+                    cur_tok = self.get_x_token();
+                }
+                if vacuous {
+                    // §446: back_error
+                    self.errors.push(ScanError::MissingNumber);
+                    self.back_input(cur_tok.clone());
+                } else if cur_tok != Tok::Space {
+                    self.back_input(cur_tok.clone());
+                }
+            }
+        }
+        if negative {
+            cur_val = self.negate(cur_val);
+        }
+        (cur_val, radix, cur_tok)
+    }
+    pub fn scan_int(&mut self) -> i64 {
+        self.scan_int_ext().0
+    }
+
+    /// §448 scan_dimen(mu=false, inf, shortcut). `shortcut = Some(v)`: cur_val already holds the
+    /// integer v. Returns (value, cur_order).
+    pub fn scan_dimen(&mut self, inf: bool, shortcut: Option<i64>) -> (i64, u8) {
+        let mut f: i64 = 0;
+        let mut arith_error = false;
+        let mut cur_order = 0u8;
+        let mut negative = false;
+        let mut cur_val: i64;
+        'attach_sign: {
+            match shortcut {
+                Some(v) => cur_val = v,
+                None => {
+                    let t = self.next_nonblank_nonsign(&mut negative);
+                    match t {
+                        // §449: an internal dimension goes to attach_sign, an internal integer falls through
+                        Tok::Int(v) => cur_val = v,
+                        Tok::Dimen(v) => {
+                            cur_val = v;
+                            break 'attach_sign;
+                        }
+                        Tok::Glue(g) => {
+                            cur_val = g.width;
+                            break 'attach_sign;
+                        }
+                        t => {
+                            self.back_input(t.clone());
+                            let mut cur_tok = t;
+                            if cur_tok == Tok::Other(',') {
+                                cur_tok = Tok::Other('.');
+                            }
+                            let radix;
+                            if cur_tok != Tok::Other('.') {
+                                let r = self.scan_int_ext();
+                                cur_val = r.0;
+                                radix = r.1;
+                                cur_tok = r.2;
+                            } else {
+                                radix = 10;
+                                cur_val = 0;
+                            }
+                            if cur_tok == Tok::Other(',') {
+                                cur_tok = Tok::Other('.');
+                            }
+                            if radix == 10 && cur_tok == Tok::Other('.') {
+                                // §452 Scan decimal fraction
+                                let mut digits: Vec<u8> = vec![];
+                                let _ = self.get_token(); // point_token is being re-scanned
+                                let last = loop {
+                                    let t = self.get_x_token();
+                                    match &t {
+                                        Tok::Other(c) if c.is_ascii_digit() => {
+                                            if digits.len() < 17 {
+                                                digits.push(*c as u8 - b'0');
+                                            }
+                                        }
+                                        _ => break t,
+                                    }
+                                };
+                                f = arith::round_decimals(&digits);
+                                if last != Tok::Space {
+                                    self.back_input(last);
+                                }
+                            }
+                        }
+                    }
+                }
+            }
+            if cur_val < 0 {
+                negative = !negative;
+                cur_val = self.negate(cur_val);
+            }
+            // §453 Scan units and set cur_val to x*(cur_val+f/2^16)
+            'done: {
+                'attach_fraction: {
+                    if inf {
+                        // §454
+                        if self.scan_keyword("fil") {
+                            cur_order = 1;
+                            while self.scan_keyword("l") {
+                                if cur_order == 3 {
+                                    self.errors.push(ScanError::IllegalFil);
+                                } else {
+                                    cur_order += 1;
+                                }
+                            }
+                            break 'attach_fraction;
+                        }
+                    }
+                    // §455 Scan for units that are internal dimensions
+                    let save_cur_val = cur_val;
+                    let t = self.next_nonblank();
+                    let v: Option<i64> = match t {
+                        Tok::Int(v) | Tok::Dimen(v) => Some(v),
+                        Tok::Glue(g) => Some(g.width),
+                        t => {
+                            self.back_input(t);
+                            if self.scan_keyword("em") {
+                                self.optional_space();
+                                Some(self.em)
+                            } else if self.scan_keyword("ex") {
+                                self.optional_space();
+                                Some(self.ex)
+                            } else {
+                                None
+                            }
+                        }
+                    };
+                    if let Some(v) = v {
+                        // found: cur_val := nx_plus_y(save_cur_val, v, xn_over_d(v, f, 2^16))
+                        if v < -INFINITY {
+                            self.undefined = true;
+                        }
+                        let y = match arith::xn_over_d(v, f, UNITY) {
+                            Ok((q, _)) => q,
+                            Err(()) => {
+                                arith_error = true;
+                                0
+                            }
+                        };
+                        cur_val = match arith::nx_plus_y(save_cur_val, v, y) {
+                            Ok(r) => r,
+                            Err(()) => {
+                                arith_error = true;
+                                0
+                            }
+                        };
+                        break 'attach_sign;
+                    }
+                    // §456: \mag is 1000 here, "true" is scanned and changes nothing
+                    let _ = self.scan_keyword("true");
+                    if self.scan_keyword("pt") {
+                        break 'attach_fraction;
+                    }
+                    // §458
+                    let conv: Option<(i64, i64)> = if self.scan_keyword("in") {
+                        Some((7227, 100))
+                    } else if self.scan_keyword("pc") {
+                        Some((12, 1))
+                    } else if self.scan_keyword("cm") {
+                        Some((7227, 254))
+                    } else if self.scan_keyword("mm") {
+                        Some((7227, 2540))
+                    } else if self.scan_keyword("bp") {
+                        Some((7227, 7200))
+                    } else if self.scan_keyword("dd") {
+                        Some((1238, 1157))
+                    } else if self.scan_keyword("cc") {
+                        Some((14856, 1157))
+                    } else if self.scan_keyword("sp") {
+                        break 'done;
+                    } else {
+                        // §459: pt inserted
+                        self.errors.push(ScanError::IllegalUnit);
+                        None
+                    };
+                    if let Some((num, denom)) = conv {
+                        let (q, rem) = match arith::xn_over_d(cur_val, num, denom) {
+                            Ok(x) => x,
+                            Err(()) => {
+                                arith_error = true;
+                                (1 << 30, 0) // value is irrelevant once arith_error is set, but >= 2^14
+                            }
+                        };
+                        cur_val = q;
+                        f = (num * f + UNITY * rem) / denom;
+                        cur_val += f / UNITY;
+                        f %= UNITY;
+                    }
+                }
+                // attach_fraction:
+                if cur_val >= 0o40000 {
+                    arith_error = true;
+                } else {
+                    cur_val = cur_val * UNITY + f;
+                }
+            }
+            // done:
+            self.optional_space();
+        }
+        // attach_sign:
+        if arith_error || cur_val.abs() >= 0o10000000000 {
+            // §460
+            self.errors.push(ScanError::DimensionTooLarge);
+            cur_val = MAX_DIMEN;
+        }
+        if negative {
+            cur_val = -cur_val;
+        }
+        (cur_val, cur_order)
+    }
+
+    /// §461 scan_glue(glue_val)
+    pub fn scan_glue(&mut self) -> Glue {
+        let mut negative = false;
+        let t = self.next_nonblank_nonsign(&mut negative);
+        let width = match t {
+            Tok::Glue(g) => {
+                // §430: all three components are negated
+                return if negative { Glue { width: self.negate(g.width), stretch: self.negate(g.stretch), shrink: self.negate(g.shrink), ..g } } else { g };
+            }
+            Tok::Dimen(v) => {
+                if negative {
+                    self.negate(v)
+                } else {
+                    v
+                }
+            }
+            Tok::Int(v) => {
+                let v = if negative { self.negate(v) } else { v };
+                self.scan_dimen(false, Some(v)).0
+            }
+            t => {
+                self.back_input(t);
+                let v = self.scan_dimen(false, None).0;
+                if negative {
+                    -v
+                } else {
+                    v
+                }
+            }
+        };
+        // §462
+        let mut q = Glue { width, ..Default::default() };
+        if self.scan_keyword("plus") {
+            let (v, o) = self.scan_dimen(true, None);
+            q.stretch = v;
+            q.stretch_order = o;
+        }
+        if self.scan_keyword("minus") {
+            let (v, o) = self.scan_dimen(true, None);
+            q.shrink = v;
+            q.shrink_order = o;
+        }
+        q
+    }
+
+    /// What main control does with the rest of the list up to the first control sequence: character
+    /// tokens are typeset (returned as text), macros are expanded. `None` if an internal quantity is
+    /// met first (that would start an assignment; outside what the checks look at).
+    pub fn rest_text(&mut self) -> Option<String> {
+        let mut s = String::new();
+        loop {
+            match self.get_x_token() {
+                Tok::Letter(c) | Tok::Other(c) => s.push(c),
+                Tok::Space => s.push(' '),
+                Tok::Cs(None) | Tok::End => return Some(s),
+                _ => return None,
+            }
+        }
+    }
+}
+
+/// §178 print_spec(p, "pt")
+pub fn print_spec(g: &Glue) -> String {
+    let mut s = arith::print_scaled(g.width);
+    s.push_str("pt");
+    let glue = |d: i64, order: u8| -> String {
+        let mut s = arith::print_scaled(d);
+        if order > 0 {
+            s.push_str("fil");
+            for _ in 1..order {
+                s.push('l');
+            }
+        } else {
+            s.push_str("pt");
+        }
+        s
+    };
+    if g.stretch != 0 {
+        s.push_str(" plus ");
+        s.push_str(&glue(g.stretch, g.stretch_order));
+    }
+    if g.shrink != 0 {
+        s.push_str(" minus ");
+        s.push_str(&glue(g.shrink, g.shrink_order));
+    }
+    s
+}
+
+/// §1239 Compute the sum of two glue specs: `q` is the glue just scanned, `r` the old value.
+/// Integer addition is Pascal's: the caller wraps to 32 bits (`\advance` is not range checked).
+pub fn add_glue(q: &Glue, r: &Glue) -> Glue {
+    let mut q = *q;
+    q.width += r.width;
+    if q.stretch == 0 {
+        q.stretch_order = 0;
+    }
+    if q.stretch_order == r.stretch_order {
+        q.stretch += r.stretch;
+    } else if q.stretch_order < r.stretch_order && r.stretch != 0 {
+        q.stretch = r.stretch;
+        q.stretch_order = r.stretch_order;
+    }
+    if q.shrink == 0 {
+        q.shrink_order = 0;
+    }
+    if q.shrink_order == r.shrink_order {
+        q.shrink += r.shrink;
+    } else if q.shrink_order < r.shrink_order && r.shrink != 0 {
+        q.shrink = r.shrink;
+        q.shrink_order = r.shrink_order;
+    }
+    q
+}
+
+/// Wrap an i64 to the 32-bit two's complement value a Pascal `integer` addition yields on the
+/// machines TeX runs on (`\advance` "silently wraps").
+pub fn wrap32(v: i64) -> i64 {
+    (v + (1i64 << 31)).rem_euclid(1i64 << 32) - (1i64 << 31)
+}
+
+#[cfg(test)]
+mod tests {
+    use super::*;
+    fn lex(s: &str) -> Vec<Tok> {
+        let mut v: Vec<Tok> = s
+            .chars()
+            .map(|c| if c == ' ' { Tok::Space } else if c.is_ascii_alphabetic() { Tok::Letter(c) } else { Tok::Other(c) })
+            .collect();
+        v.push(Tok::Cs(None));
+        v
+    }
+    fn dimen(s: &str) -> (i64, Vec<ScanError>, String) {
+        let mut sc = Scanner::new(lex(s));
+        sc.em = 12 * UNITY;
+        sc.ex = 12 * UNITY;
+        let v = sc.scan_dimen(false, None).0;
+        let rest = sc.rest_text().unwrap();
+        (v, sc.errors, rest)
+    }
+    #[test]
+    fn repo_recorded_values() {
+        // crates/texlang/src/parse/dimen.rs, parse_success_tests / parse_failure_tests
+        assert_eq!(dimen("0.075in").0, 355207);
+        assert_eq!(dimen("1in").0, 65536 * 7227 / 100);
+        assert_eq!(dimen("1 in").0, 65536 * 7227 / 100);
+        assert_eq!(dimen("16383.99998pt"), (MAX_DIMEN, vec![], "".into()));
+        assert_eq!(dimen("1.999999sp").0, 1);
+        assert_eq!(dimen("1073741823.99999999sp").0, MAX_DIMEN);
+        assert_eq!(dimen("16384pt"), (MAX_DIMEN, vec![ScanError::DimensionTooLarge], "".into()));
+        assert_eq!(dimen("-300000000in"), (-MAX_DIMEN, vec![ScanError::DimensionTooLarge], "".into()));
+        assert_eq!(dimen("1073741824sp").1, vec![ScanError::DimensionTooLarge]);
+        assert_eq!(dimen("1xy"), (65536, vec![ScanError::IllegalUnit], "xy".into()));
+        assert_eq!(dimen(".pt").0, 0);
+        assert_eq!(dimen("-1.5pt").0, -98304);
+        assert_eq!(dimen("1true cm").0, 65536 * 7227 / 254);
+    }
+}
